@@ -303,6 +303,7 @@ def subs_var(fn, sub):
 
 
 def r4(ctx, vals):
+    ctx.mark('enhanced-decoder', 'C14.R4')
     ctx.rule('C14.R4', 'RESULT_CONTINUE is announced (more = true) only when a complete further item is buffered: a plain '
              'byte, or a two-byte sequence that passed the completeness test; and *value is stored only while no value was '
              'stored before in this call; a deferred two-byte sequence is left in the buffer as a whole', minimum=4, star=True)
@@ -462,6 +463,7 @@ def r8(ctx):
 
 
 def r7(ctx):
+    ctx.mark('transport-accounting', 'C14.R7')
     ctx.rule('C14.R7', 'FileTransport::read appends at m_buffer + m_bufLen with at most m_bufSize - m_bufLen bytes and hands '
              'out the whole buffer; readConsumed keeps exactly the unconsumed tail (memmove of m_bufLen - len bytes from offset '
              'len) and never leaves a length beyond the data; behind the device read m_bufLen only grows by the number of bytes read',
@@ -515,6 +517,7 @@ def r7(ctx):
 
 
 def overflow_threshold_rule(ctx, rid):
+    ctx.mark('overflow-threshold', rid)
     ctx.rule(rid, 'buffered input is given up only when the transport buffer is nearly exhausted: the condition under which '
              'FileTransport::read resets m_bufLen (evaluated on the typed AST for buffer sizes 16..256 and every fill level) is '
              'false whenever at least half of the buffer is free - a pending first byte of a two-byte sequence or the rest of a '
@@ -549,6 +552,7 @@ def overflow_threshold_rule(ctx, rid):
 
 
 def clock_rule(ctx, rid):
+    ctx.mark('clock', rid)
     ctx.rule(rid, 'the deadline arithmetic of recv() runs on milliseconds: clockGetMillis() returns seconds * 1000 + nanoseconds / '
              '1000000 of the clock reading (evaluated on the typed AST for readings around second boundaries); with another unit '
              'the wait for the second byte of a split sequence ends early or the call blocks', minimum=1)
